@@ -1,8 +1,8 @@
 (* C06 — a failed update leaves the record untouched (atomicity, incl. signing faults).
    Holds for every record (valid or not), every operation, every signer (failing, lying, of any
    output length) and every behaviour of the crypto cores. *)
-Require Import Enr.Bytes Enr.Consts Enr.Rlp Enr.SortedMap Enr.Keccak Enr.Record Enr.Update.
-Require Import EnrProofs.Thm_Update.
+Require Import Enr.Bytes Enr.Consts Enr.Rlp Enr.SortedMap Enr.Keccak Enr.Record Enr.Update Enr.Spec.
+Require Import EnrProofs.Thm_Update EnrProofs.Thm_Valid.
 Open Scope N_scope.
 
 Theorem step_err_unchanged : forall (c : crypto) kt r o k sg e r',
@@ -30,3 +30,12 @@ Theorem signer_fault : forall (c : crypto) kt r o k sg,
   (forall x r', apply_op c kt r o k sg <> Ok (x, r')) /\ snd (step c kt r o k sg) = r.
 Proof. exact Thm_Update.signer_fault. Qed.
 Print Assumptions signer_fault.
+
+(* ... and it still verifies: a valid record stays valid through any failed call, whatever the signer did *)
+Theorem err_still_valid : forall (c : crypto) kt r o k sg e r',
+  Valid c kt r -> step c kt r o k sg = (Err e, r') -> Valid c kt r' /\ verify c kt r' = Ok true.
+Proof.
+  intros c kt r o k sg e r' Hv H. rewrite (Thm_Update.step_err_unchanged c kt _ _ _ _ _ _ H).
+  split; [exact Hv|]. destruct (Thm_Valid.valid_observables c kt r Hv) as (pk & _ & Hver & _). exact Hver.
+Qed.
+Print Assumptions err_still_valid.
